@@ -56,6 +56,9 @@ func genC10() {
 
 	var defs []string
 	args := map[string][]string{}
+	lay := newC10Layering("pkg/build")
+	seesLayering := map[string]bool{}
+	inspected := map[string]bool{}
 	var setReposSources []string
 
 	for _, f := range fns {
@@ -259,6 +262,10 @@ func genC10() {
 				}
 				if n := callName(x); n != "" {
 					emit(guards, n)
+					inspected[n] = true
+					if lay.siteSees(x, recv) {
+						seesLayering[n] = true
+					}
 					if n == "groupByOriginAndSize" || n == "splitLayers" || n == "writeTar" || n == "bc.apk.SetRepositories" {
 						var as []string
 						for _, a := range x.Args {
@@ -497,5 +504,22 @@ func genC10() {
 	}
 	g.def("c10_setrepos_sources", "list string", "["+strings.Join(ss, "; ")+"]",
 		"the configuration fields that feed the list postBuildSetApk hands to SetRepositories")
+	// which of the listed calls can see the layering block (gen_c10_layering.go); the functions read above are
+	// not steps themselves (the model inlines them)
+	for _, f := range fns {
+		delete(seesLayering, "bc."+f.name)
+		delete(inspected, "bc."+f.name)
+	}
+	var rs []string
+	for _, s := range sortedSet(seesLayering) {
+		rs = append(rs, coqStr(s))
+	}
+	g.def("c10_layering_readers", "list string", "["+strings.Join(rs, "; ")+"]",
+		"the listed calls that can see the layering block: `.Layering` in the callee (transitively inside pkg/build) or among the arguments, or the whole image configuration handed outside pkg/build")
+	var is []string
+	for _, s := range sortedSet(inspected) {
+		is = append(is, coqStr(s))
+	}
+	g.def("c10_layering_inspected", "list string", "["+strings.Join(is, "; ")+"]", "the calls that were inspected for it")
 	g.write()
 }
